@@ -277,6 +277,15 @@ def _run(ctx):
                       detail=None if ok else "an error of the underlying call is converted to Ok outside the reviewed table %s" % sorted(allowed))
                 continue
             ck.ob("C20-R3", fn, "error-path-shape", False, detail="unrecognised return %s" % show(ret)[:100])
+        if not err_paths:
+            # the adapter written as one expression:  self.rw.w.send(evs).map_err(|e| format!(.., e))  -- map_err turns
+            # Err(e) into Err(f(e)) and nothing else, so the failure of the underlying call is what is returned
+            tails = [p for p in paths if p.outcome[0] == "return" and isinstance(mir.strip(p.outcome[1]), tuple) and mir.strip(p.outcome[1])[0] == "call"
+                     and mir.method_name(mir.strip(p.outcome[1])[1]) == "map_err" and isinstance(mir.strip(p.outcome[1])[2][0], tuple) and mir.strip(p.outcome[1])[2][0][0] == "call"]
+            rets_ = [p for p in paths if p.outcome[0] == "return"]
+            if tails and len(tails) == len(rets_):
+                err_paths = len(tails)
+                ck.ob("C20-R3", fn, "err->Err[map_err]", True)
         ck.ob("C20-R3", fn, "has-error-path", err_paths > 0 or fn.endswith("::next_tablet") and err_paths > 0,
               detail="%d error paths" % err_paths)
         missing = allowed - seen_conv
